@@ -52,6 +52,10 @@ def gen_case(rng, i):
         return common.case_json(q, T, extra={'init': True})
     if family == 'except':
         q['except'] = [['field', 'a', j, g.spelling('a', j)] for j in sorted(rng.sample(range(wa), min(wa, rng.choice([1, 1, 2]))))]
+        if rng.random() < 0.3 and q['except']:
+            # the same column excluded twice (possibly in two spellings), in front of the others
+            j = q['except'][0][2]
+            q['except'].insert(rng.randrange(0, len(q['except'])), ['field', 'a', j, g.spelling('a', j)])
         for f in q['except']:
             if f[3] == 'sq':
                 f[3] = 'dq'
